@@ -65,14 +65,19 @@ def envs(fx, tier="thorough"):
             rank = [rnd.choice([0, 0, 1, 2]) for _ in range(n)]
             for s in range(1, n + 1):
                 st = fl.st(s)
-                if st["kind"] != "S" or not st["headed"]:
-                    util[s - 1] = max(util[s - 1], Fraction(1, 2))          # regions always weigh something
+                par = fl.st(st["parent"]) if st["parent"] else None
+                if st["kind"] != "S" or not st["headed"] or not (par and par["strat"] in ("Utilitarian", "Random")):
+                    # regions always weigh something; a zero utility only on plain sub-states of utilitarian / random regions
+                    # (a region that picks by select() or by its resumable mark could otherwise report 0 and leave its
+                    # parent without a positive top-rank sum - outside the documented preconditions)
+                    util[s - 1] = max(util[s - 1], Fraction(1, 2))
             for s in range(1, n + 1):
                 st = fl.st(s)
                 if st["kind"] == "C":      # a randomize request resolves every composite region below its target by weight
                     kids = st["kids"]
-                    top = max(rank[k - 1] for k in kids)
-                    tops = [k for k in kids if rank[k - 1] == top]
+                    erank = lambda k: rank[k - 1] if fl.st(k)["headed"] else 0          # anonymous heads rank 0
+                    top = max(erank(k) for k in kids)
+                    tops = [k for k in kids if erank(k) == top]
                     if all(util[k - 1] == 0 for k in tops):
                         util[tops[-1] - 1] = Fraction(1)
             r = rs[i % len(rs)]
@@ -119,5 +124,13 @@ def run(fx, tier, dev=(), props=PROPS, invs=INVS, workers=16, timeout=1500, menu
     violated = re.findall(r"(?:Invariant|Action property|Temporal properties|property) (\w+) (?:is|was) violated", out)
     violated += re.findall(r"Action property (\w+) is violated", out)
     ok = "No error has been found" in out
+    if not ok and budget and rc == 124 and "Error:" not in out and not violated:
+        # TLC did not come back from a state with a huge fan-out in time for its own stopAfter; the outer timeout ended it.
+        # What it covered is in its last progress line.
+        pr = re.findall(r"Progress\(\d+\)[^\n]*?: ([\d,]+) states generated[^\n]*?, ([\d,]+) distinct states found[^\n]*?, ([\d,]+) states left on queue", out)
+        if pr:
+            g, dd, q = (int(x.replace(",", "")) for x in pr[-1])
+            st.update(generated=g, distinct=dd, left_on_queue=q)
+            ok = True
     complete = ok and st.get("left_on_queue", 0) == 0      # (with a time budget TLC may end with states still queued)
     return dict(dir=d, module=name, rc=rc, ok=ok, complete=complete, violated=sorted(set(violated)), stats=st, secs=secs, out=out, menu=m)
